@@ -9,6 +9,7 @@ import (
 	"github.com/q191201771/lal/pkg/rtmp"
 
 	"verif/drv/pbt"
+	"verif/ref/flvref"
 	"verif/ref/rtmpref"
 )
 
@@ -43,6 +44,21 @@ func checkLazyDivider(in, wantWith, wantWithout []byte, ts uint32, desc string) 
 		if _, err := r.ReadMsg(); err != io.EOF {
 			return pbt.V("sdf/chunked/"+leg.name+"/stray-bytes", "%s: bytes follow the one message in LazyRtmpChunkDivider's output (declared length too short?): %v", desc, err)
 		}
+	}
+	// the FLV side of the relay (http-flv subscribers, flv recording, its gop cache) strips the prefix through
+	// remux.LazyRtmpMsg2FlvTag: the script tag's data must be exactly the metadata without the prefix
+	var lt remux.LazyRtmpMsg2FlvTag
+	lt.Init(msg)
+	raw := lt.GetEnsureWithoutSdf()
+	tags, rest := flvref.ParseTags(raw)
+	if len(tags) != 1 || len(rest) != 0 {
+		return pbt.V("sdf/flv-tag/framing", "%s: LazyRtmpMsg2FlvTag produced %d bytes that parse as %d tags + %d left-over bytes, want exactly one tag", desc, len(raw), len(tags), len(rest))
+	}
+	if !bytes.Equal(tags[0].Data, wantWithout) {
+		return pbt.V("sdf/flv-tag/remaining-bytes-changed", "%s: the FLV script tag built by LazyRtmpMsg2FlvTag carries %d bytes, want the %d metadata bytes without the prefix (first difference at %d)", desc, len(tags[0].Data), len(wantWithout), firstDiff(tags[0].Data, wantWithout))
+	}
+	if tags[0].TypeByte != 18 || tags[0].Timestamp != ts {
+		return pbt.V("sdf/flv-tag/header", "%s: FLV tag has type byte %d timestamp %d, want 18 and %d", desc, tags[0].TypeByte, tags[0].Timestamp, ts)
 	}
 	// the original message must not have been modified (the divider works on a clone)
 	if !bytes.Equal(msg.Payload, in) {
